@@ -214,7 +214,28 @@ def prov_reg(ctx: Ctx, chk) -> None:
             for f, fi in fis:
                 if f.qualname in written_out and f is not callee.chain()[-1].func:
                     continue  # a helper whose statements already appear in its caller
-                for ev, node in registry_events(ctx, fi):
+                evs = registry_events(ctx, fi)
+                # the transient use of the sleeping mark (cleared while the node is served, set again on every way out)
+                # leaves the registry as the statement says once the message is handled: what it does to commands
+                # sent meanwhile is C09's subject.  Such a pair counts as the one final `sleeping = True`.
+                trans = [(ev, node) for ev, node in evs if ".sleeping = " in ev and not ev.endswith(".sleeping = True")]
+                if trans:
+                    g_ = CFG(fi.node)
+                    trues = [x for x in g_.nodes if x.kind == "stmt" and any(x.ast is node for ev, node in evs if ev.endswith(".sleeping = True"))]
+                    restored = bool(trues) and all(g_.reach_avoiding(g_.nodes_of(node), lambda x: x is g_.exit, lambda x: x in trues, from_succ=True) is None for _ev, node in trans)
+                    if restored:
+                        once = False
+                        keep = []
+                        for ev, node in evs:
+                            if (ev, node) in trans:
+                                continue
+                            if ev.endswith(".sleeping = True"):
+                                if once or any(e2.endswith(".sleeping = True") for e2, _f2, _n2 in got):
+                                    continue
+                                once = True
+                            keep.append((ev, node))
+                        evs = keep
+                for ev, node in evs:
                     got.append((ev, f, node))
             key = f"{name}@{V}"
             missing = [alts for alts in want if not any(g[0] in alts for g in got)]
